@@ -388,6 +388,22 @@ func (c *Ctx) voteTable(fi *load.FuncInfo, typ string, spec func(b, h, s, k int)
 			decide = is
 		}
 	}
+	// the decision may have been moved into a declared function: result <- decideVote(buy, hold, sell, ...)
+	var decideCall *ast.CallExpr
+	var decideFn *load.FuncInfo
+	if decide == nil {
+		for _, s := range loop.Body.List {
+			if snd, ok := s.(*ast.SendStmt); ok {
+				if call, ok := snd.Value.(*ast.CallExpr); ok {
+					if fn := callee(info, call); fn != nil {
+						if dfi := c.P.Decls[fn.Origin()]; dfi != nil && dfi.Decl.Body != nil {
+							decideCall, decideFn, decide = call, dfi, snd
+						}
+					}
+				}
+			}
+		}
+	}
 	if tally == nil || decide == nil || len(tally.Lhs) != 4 {
 		c.violate("decision-table", site, "shape", loop.Pos(), "the loop no longer tallies the sources with CountActions and then decides (undecided, fails closed)")
 		return
@@ -418,7 +434,16 @@ func (c *Ctx) voteTable(fi *load.FuncInfo, typ string, spec func(b, h, s, k int)
 			}
 		}
 	}
-	m := dtab.FromStmts(info, []ast.Stmt{decide}, inputs)
+	var m *dtab.Machine
+	if decideFn != nil {
+		m = dtab.FromFuncDecl(decideFn.Pkg.TypesInfo, decideFn.Decl)
+		if len(m.Params) != len(decideCall.Args) {
+			c.violate("decision-table", site, "shape", loop.Pos(), "the decision function is not called with one argument per parameter (undecided, fails closed)")
+			return
+		}
+	} else {
+		m = dtab.FromStmts(info, []ast.Stmt{decide}, inputs)
+	}
 	if !c.machineOK(m, "decision-table", site, fi.Decl) {
 		return
 	}
@@ -428,16 +453,37 @@ func (c *Ctx) voteTable(fi *load.FuncInfo, typ string, spec func(b, h, s, k int)
 				s := k - b - h
 				env := map[string]sym.Expr{}
 				vals := []int{b, h, s}
+				ienv := map[string]int64{}
 				for i, nm := range names {
 					if nm != "" {
 						env[nm] = sym.N(int64(vals[i]))
 					}
 				}
-				ienv := map[string]int64{}
 				for _, d := range preDefs {
 					if v, ok := intEval(d.expr, ienv, int64(k)); ok {
 						ienv[d.name] = v
 						env[d.name] = sym.N(v)
+					}
+				}
+				if decideFn != nil {
+					// bind the callee's parameters to the values of the arguments at this point
+					for i, nm := range names {
+						if nm != "" {
+							ienv[nm] = int64(vals[i])
+						}
+					}
+					okArgs := true
+					for i, a := range decideCall.Args {
+						v, ok := intEval(a, ienv, int64(k))
+						if !ok {
+							okArgs = false
+							break
+						}
+						env[m.Params[i]] = sym.N(v)
+					}
+					if !okArgs {
+						c.violate("decision-table", site, "arguments", decideCall.Pos(), "an argument of the decision function is not a tally or a count of the sources (undecided, fails closed)")
+						return
 					}
 				}
 				point := fmt.Sprintf("k=%d buy=%d hold=%d sell=%d", k, b, h, s)
@@ -539,7 +585,14 @@ func (c *Ctx) countActionsTable() {
 				return true
 			}
 			if call, ok := as.Rhs[0].(*ast.CallExpr); ok && strings.HasSuffix(calleeName(sinfo, call), "strategy.DenormalizeActions") && len(call.Args) == 1 {
-				if inner, ok := call.Args[0].(*ast.CallExpr); ok {
+				arg := call.Args[0]
+				// the Compute result may go through a local first: actions := member.Compute(...)
+				if id, isID := arg.(*ast.Ident); isID {
+					if def := singleDefs(sinfo, r.Body)[sinfo.ObjectOf(id)]; def != nil {
+						arg = def
+					}
+				}
+				if inner, ok := arg.(*ast.CallExpr); ok {
 					if sel, ok := inner.Fun.(*ast.SelectorExpr); ok && sel.Sel.Name == "Compute" {
 						okDen = true
 					}
